@@ -41,6 +41,14 @@ D = {
     "C27b": ("Sphere.prox: `norm_x < radius` instead of `<=`", "degenerate ball (radius 0) and x exactly zero: 0 * 0 / 0"),
     "C28c": ("system_from_urdf: child.v_R uses the joint-relative J_omega_JRc instead of the absolute J_omega_IRc in the transport term", "a joint with non-zero relative translation below a rotating parent"),
     "C29c": ("Export.__add_key stacks array-valued data of a list export in reversed order", "export_contr of a list of contributions whose point/cell data are numpy arrays (rods' directors, frictional contacts' P_F)"),
+    "C14c": ("System.assemble: the counter resets are compacted into chained assignments and `self.nla_c = 0` is lost", "a compliance contribution (force law in compliance form, mixed rod) and a second assemble() / set_new_initial_state"),
+    "C17c": ("ScipyIVP.la_g_la_gamma_la_c drops W_tau la_tau from the right-hand side of the multiplier solve", "ScipyIVP on a constrained system with an actuator (Motor, PD/PID controller): reported u_dot, la_g violate g_ddot = 0"),
+    "C18c": ("System.xi_F restitutes the pre-impact slip with e_N instead of e_F", "Rattle / DualStormerVerlet, a contact with friction and e_N > 0 (e_F = 0), an impact where slip turns into stick"),
+    "C19b": ("Rattle.R_x1 evaluates h at u_n instead of u_n+1/2 in stage 1", "velocity-dependent forces: gyroscopic terms of a rigid body with non-spherical inertia rotating in 3-D"),
+    "C20c": ("Rattle.solve takes ceil(t1/dt) steps instead of ceil((t1 - t0)/dt)", "Rattle on a system with non-zero initial time (System(t0=...) or a restart)"),
+    "C21c": ("BackwardEuler: the re-solve inside the contact fixed-point loop is stored in sol_fp but the failure check still reads the first solve `sol`", "BackwardEuler with contacts, a step whose fixed-point loop needs a re-solve, and that re-solve failing"),
+    "C24c": ("System.set_new_initial_state distributes q0 only to contributions that also have velocity coordinates", "a contribution with nq but no nu (MaxwellElement, PIDcontroller) and a restart"),
+    "C26c": ("RigidBody.r_OP returns q[:3] itself (a view of the caller's array) for a zero offset", "the caller later updates its q in place; a later evaluation at the old values hits the rewritten cache entry"),
     "C22b": ("fixed_point_iteration calls fun(x) without the defensive copy", "a fixed-point map that updates its argument in place (DualStormerVerlet's own map with accelerated=False does)"),
 }
 rows = []
